@@ -141,12 +141,30 @@ def run(ctx):
                         "speaks of decisions, rates and recorded history)"]
     tag = "quick" if ctx.quick else "thorough"
     design = ["design_" + tag, "budget"]
+    import threading
+
+    got, errs = {}, []
+
+    def job(name, workers):
+        try:
+            got[name] = tlc.run(MOD, os.path.join(SPECS, "TrainCtl_%s.cfg" % name), workers=workers, timeout=5000)
+        except Exception as ex:
+            errs.append(ex)
+
+    ths = [threading.Thread(target=job, args=(design[0], 10)), threading.Thread(target=job, args=(design[1], 4)),
+           threading.Thread(target=job, args=("replay_" + tag, 4))]
+    for th in ths:
+        th.start()
+    for th in ths:
+        th.join()
+    if errs:
+        raise errs[0]
     for name in design:
-        res = tlc.run(MOD, os.path.join(SPECS, "TrainCtl_%s.cfg" % name), workers=16, timeout=3000)
+        res = got[name]
         tlc.require_ok(res, "TrainCtl/" + name)
         tlc.require_covered(res, ACTIONS, "TrainCtl/" + name)
         ctx.add_tlc("TrainCtl/" + name, res)
-    res = tlc.run(MOD, os.path.join(SPECS, "TrainCtl_replay_%s.cfg" % tag), workers=16, timeout=3000)
+    res = got["replay_" + tag]
     tlc.require_ok(res, "TrainCtl/replay")
     ctx.add_tlc("TrainCtl/replay_" + tag, res, count_states=False)
     recs = res.records
